@@ -1564,8 +1564,9 @@ class Bits:
         if _verif_os.environ.get('SCOTT_GRIFFITHS_BITSTRING_VERIF') == '1':
             # Verification hook: lets a harness cross the chunk boundary with small data. Inactive unless the variable is set.
             chunk_size = getattr(bitstring, '_verif_tofile_chunk_bits', chunk_size)
-        for chunk in self.cut(chunk_size):
-            f.write(chunk.tobytes())
+        # The chunks are taken in stored order, whatever the bit numbering mode.
+        for start in range(0, len(self), chunk_size):
+            f.write(self._absolute_slice(start, min(start + chunk_size, len(self))).tobytes())
 
     def startswith(self, prefix: BitsType, start: Optional[int] = None, end: Optional[int] = None) -> bool:
         """Return whether the current bitstring starts with prefix.
